@@ -10,6 +10,8 @@
 //   c10_setrot.cpp  stage set-rotation   setRotation(from,to) / rotationMatrix over all ordered pairs of lattice
 //                                        directions, scalings, exactly and nearly antipodal families
 //   c10_slerp.cpp   stage slerp          slerp, slerpShortestArc, squad, spline (keys, tangent continuity)
+//   c10_dirty.cpp   stage reused-objects Matrix44/Quat::setAxisAngle, Quat::setRotation on objects pre-filled with primes / NaN: bitwise the
+//                                        fresh result; Quat-vs-Matrix44 relation on the re-used objects
 //
 // Conventions established from the code and the documentation and used by the oracles:
 //   rotateVector(v) = q v q*  (documented in the function);  v*q, v*q.toMatrix33(), v*q.toMatrix44() are the same
@@ -179,5 +181,6 @@ int main (int argc, char** argv)
     c10::run_setrotation ();
     c10::run_slerp ();
     c10::run_repeated_keys ();
+    c10::run_reused ();
     return vf::R ().finish ();
 }
